@@ -397,14 +397,69 @@ def friction(ctx):
 
 
 def users(ctx):
-    """The smoothed distance uses the smoothed minimum with a non-negative width."""
+    """The smoothed distance uses the smoothed minimum mirrored by a sign factor s in {-1, +1}: s*min(s*a, s*b, eps) is min for s = +1
+    and the smoothed max for s = -1; the width must be non-negative for BOTH signs (a width that carries the sign collapses
+    the blend band for s = -1 and the corner distance is no longer continuously differentiable)."""
     rule = "T5-users"
+    from optilint.absdom import SignEnv, is_nonneg, TOP
+    from optilint.cfg import cfg_of
+    from .common import expand, single_def, def_value
     sd = ctx.need("optimism.contact.EdgeCpp:smooth_distance")
+    cfg = cfg_of(sd)
     calls = [c for c in ast.walk(sd.node) if isinstance(c, ast.Call) and (dotted(c.func) or "") == "SmoothFunctions.min"]
     ok = len(calls) == 1 and len(calls[0].args) == 3
     ctx.decide(rule, ok, sd, calls[0] if calls else None, construct="smooth_distance-uses-smoothed-min",
                detail="smooth_distance = sign * SmoothFunctions.min(sign*pd0, sign*pd1, tol)",
                bad_detail="smooth_distance no longer goes through SmoothFunctions.min")
+    if not ok:
+        return
+    c = calls[0]
+    node = [n for n in cfg.nodes if n.ast is not None and any(x is c for x in ast.walk(n.ast))][0]
+
+    def resolver(name):
+        ds = cfg.reaching(node, name)
+        ds = [d for d in ds if d.kind == "stmt"]
+        if not ds:
+            return None
+        # the last definition on the straight-line path
+        d = ds[-1]
+        return def_value(d, name)
+    tol_param = sd.params()[2]
+    env = SignEnv([], assumptions={tol_param: "+"}, expander=resolver)
+    sg = env.sign(c.args[2])
+    # mirrored use: the two arguments and the result carry the same sign factor
+    okw = True if is_nonneg(sg) else (None if sg == TOP else False)
+    wit = ""
+    if okw is None:
+        # a factor whose definition is -sign(.) / where(.., 1.0, ..) takes both signs: then the width is negative for one of them
+        e = expand(cfg, node, c.args[2], depth=1)
+        facs = []
+
+        def flat(x):
+            if isinstance(x, ast.BinOp) and isinstance(x.op, ast.Mult):
+                flat(x.left)
+                flat(x.right)
+            else:
+                facs.append(x)
+        flat(e)
+        signed = [f for f in facs if isinstance(f, ast.Name) and any(isinstance(k, ast.Call) and (dotted(k.func) or "").split(".")[-1] == "sign"
+                                                                     for st_ in ast.walk(sd.node) if isinstance(st_, ast.Assign) and isinstance(st_.targets[0], ast.Name)
+                                                                     and st_.targets[0].id == f.id for k in ast.walk(st_.value))]
+        if signed:
+            okw, wit = False, f"it carries the factor `{signed[0].id}`, which is -1 for one orientation of the edge pair"
+    ctx.decide(rule, okw, sd, c, construct="smoothing-width-nonnegative", detail=f"width `{src(c.args[2])}` has sign {sg}",
+               bad_detail=f"the smoothing width passed to SmoothFunctions.min is `{src(c.args[2])}`: {wit or 'not provably >= 0'}; for a negative width the "
+                          f"blend band is empty and the hard min/max is returned (distance not C1 across the corner bisector)")
+    a0, a1 = c.args[0], c.args[1]
+    okm = isinstance(a0, ast.BinOp) and isinstance(a1, ast.BinOp) and isinstance(a0.op, ast.Mult) and isinstance(a1.op, ast.Mult) \
+        and isinstance(a0.left, ast.Name) and isinstance(a1.left, ast.Name) and a0.left.id == a1.left.id
+    if okm:
+        r = cfg.returns()
+        okm = len(r) == 1 and isinstance(r[0].ast.value, ast.BinOp) and isinstance(r[0].ast.value.op, ast.Mult) and \
+            ((isinstance(r[0].ast.value.left, ast.Name) and r[0].ast.value.left.id == a0.left.id and r[0].ast.value.right is c) or
+             (isinstance(r[0].ast.value.right, ast.Name) and r[0].ast.value.right.id == a0.left.id and r[0].ast.value.left is c))
+    ctx.decide(rule, okm, sd, c, construct="mirrored-by-one-sign-factor", detail="s * min(s*a, s*b, eps) with one factor s",
+               bad_detail="smooth_distance is not s * SmoothFunctions.min(s*a, s*b, eps) with the same sign factor on both arguments and the result")
 
 
 def variants(repo):
@@ -428,6 +483,8 @@ def variants(repo):
         Variant("smooth_linear end cap", M, sub("1.0-l-0.5*(1.0-xi)*(1.0-xi)/l", "1.0-0.5*(1.0-xi)*(1.0-xi)/l"), "T7-smooth_linear"),
         Variant("smooth_linear middle", M, sub("xi-0.5*l)", "xi-l)"), "T7-smooth_linear"),
         Variant("smooth_linear switch", M, sub("jnp.where(xi > 1.0-l,", "jnp.where(xi > 1.0-2*l,"), "T7-smooth_linear"),
+        Variant("smoothing width carries the mirror sign", "optimism/contact/EdgeCpp.py", sub("    return sign*SmoothFunctions.min(sign*pd0, sign*pd1, tol)", "    return sign*SmoothFunctions.min(sign*pd0, sign*pd1, sign*tol)"), "T5-users"),
+        Variant("mirror sign on one argument only", "optimism/contact/EdgeCpp.py", sub("    return sign*SmoothFunctions.min(sign*pd0, sign*pd1, tol)", "    return sign*SmoothFunctions.min(sign*pd0, pd1, tol)"), "T5-users"),
         Variant("reformat SmoothFunctions", S, reformat(), None),
         Variant("reformat Friction", F, reformat(), None),
         Variant("alpha-rename min_base", S, alpha_rename("min_base"), None),
